@@ -532,8 +532,11 @@ int main(int argc, char** argv) {
             std::string W = tk.next(); std::string kind = tk.next(); int id = tk.nextl(); int ix = tk.nextl(); int iy = tk.nextl(); long t = tk.nextl();
             if (spool.count(ix)) {
               Shape* x = sget(ix)->clone(); Shape* y = sget(iy)->clone();
-              if (tk.next() != "cons") throw std::runtime_error("case: expected cons");
-              Constraint_System cs = read_cons(tk, x->dim());
+              std::string ck = tk.next();
+              Constraint_System cs;
+              if (ck == "cons") cs = read_cons(tk, x->dim());
+              else if (ck == "consx") { Shape* c = x->clone(); cs = c->cons(); delete c; }    // x's own constraints as the limit
+              else throw std::runtime_error("case: expected cons");
               unsigned tok = t < 0 ? 0 : (unsigned) t;
               try { x->lim(W, *y, cs, t < 0 ? 0 : &tok); } catch (...) { delete x; delete y; throw; }
               sput(id, x);
@@ -542,8 +545,11 @@ int main(int argc, char** argv) {
               std::cout.flush(); continue;
             }
             Polyhedron* x = clone(*get(ix)); Polyhedron* y = clone(*get(iy));
-            if (tk.next() != "cons") throw std::runtime_error("case: expected cons");
-            Constraint_System cs = read_cons(tk, x->space_dimension());
+            std::string ck = tk.next();
+            Constraint_System cs;
+            if (ck == "cons") cs = read_cons(tk, x->space_dimension());
+            else if (ck == "consx") { Polyhedron* c = clone(*x); cs = c->minimized_constraints(); delete c; if (x->space_dimension() > 0) cs.set_space_dimension(x->space_dimension()); }
+            else throw std::runtime_error("case: expected cons");
             unsigned tok = t < 0 ? 0 : (unsigned) t;
             try { lim_call(W, kind, *x, *y, cs, t < 0 ? 0 : &tok); } catch (...) { delete x; delete y; throw; }
             put(id, x);
